@@ -460,9 +460,74 @@ type C05Odd struct {
 	MaxRet   int64       `json:"max_ret_delta,omitempty"` // added to the header's max-retention field
 	Updates  []SlotWrite `json:"updates,omitempty"`
 	Sync     bool        `json:"sync"`
+	// Method2 != 0: the file is not opened but created again in place with this method and XFF2 (runC05Recreate)
+	Method2 int     `json:"method2,omitempty"`
+	XFF2    float32 `json:"xff2,omitempty"`
+}
+
+// runC05Recreate (C05Odd with Method2 set): a populated, synced file is created again IN PLACE (flag O_RDWR, as a
+// caller re-initialising a metric does) with the same archives but another aggregation method and / or
+// xFilesFactor; after an update and a Sync through that handle the file holds the handle's state - its header
+// included: the bytes on disk are the new header's, and another handle reports the new method and factor.
+func runC05Recreate(c C05Odd, ev *Evid) (fs []Finding) {
+	add := func(key, format string, args ...interface{}) {
+		fs = append(fs, Finding{Property: "C05", Key: key, Detail: fmt.Sprintf("re-create in place %s -> method %d xff %v at now=%d: ", c.L, c.Method2, c.XFF2, c.Now) + fmt.Sprintf(format, args...)})
+	}
+	dir := scratchDir()
+	defer os.RemoveAll(dir)
+	path := filepath.Join(dir, "f.wsp")
+	if err := buildFile(path, FileSpec{L: c.L, Writes: c.Pre}, c.Now); err != nil {
+		add("setup", "%v", err)
+		return
+	}
+	l2 := Layout{Archives: c.L.Archives, Method: c.Method2, XFF: c.XFF2}
+	db, err := createWT(path, l2, wt.WithOpenFileFlag(os.O_RDWR))
+	if err != nil {
+		add("recreate-fails", "Create with flag O_RDWR over the existing file failed: %v", err)
+		return
+	}
+	for _, w := range c.Updates {
+		if e, pm := updateWT(db, w.Arch, w.T, float64(w.V), c.Now); pm != "" {
+			db.Close()
+			add("update-panic", "%s", pm)
+			return
+		} else if e != nil {
+			db.Close()
+			add("setup", "update: %v", e)
+			return
+		}
+	}
+	if err := db.Sync(); err != nil {
+		db.Close()
+		add("sync-error", "%v", err)
+		return
+	}
+	b, _ := os.ReadFile(path)
+	want := EncodeLayoutHeader(l2)
+	if len(b) < len(want) || !bytes.Equal(b[:len(want)], want) {
+		db.Close()
+		add("header-not-the-handles", "after a successful Sync the header on disk is %x, the handle's header encodes as %x", b[:minInt(len(b), len(want))], want)
+		return
+	}
+	db2, err := openWT(path, wt.WithoutFlock(), wt.WithOpenFileFlag(os.O_RDONLY))
+	if err != nil {
+		db.Close()
+		add("second-open", "%v", err)
+		return
+	}
+	if int(db2.AggregationMethod()) != c.Method2 || db2.XFilesFactor() != c.XFF2 {
+		add("header-not-the-handles", "another handle opened after the Sync reports method %d xff %v", db2.AggregationMethod(), db2.XFilesFactor())
+	}
+	db2.Close()
+	db.Close()
+	ev.Count(HashJSON(c), true, "kind=recreate-in-place")
+	return
 }
 
 func runC05Odd(c C05Odd, ev *Evid) (fs []Finding) {
+	if c.Method2 != 0 {
+		return runC05Recreate(c, ev)
+	}
 	add := func(key, format string, args ...interface{}) {
 		fs = append(fs, Finding{Property: "C05", Key: key, Detail: fmt.Sprintf("existing file (%s, %d trailing bytes, max-retention field %+d): ", c.L, c.Trailing, c.MaxRet) + fmt.Sprintf(format, args...)})
 	}
@@ -780,12 +845,21 @@ func TestC05(t *testing.T) {
 				}
 				return C05Case{Kind: "partial", P: &p}
 			}
-			if rapid.IntRange(0, 11).Draw(t, "oddFile") == 0 {
+			if rapid.IntRange(0, 8).Draw(t, "oddFile") == 0 {
 				lo := defaultLayoutOpts()
 				l := genLayout(t, lo)
 				now := genNow(t, l)
 				od := C05Odd{L: l, Now: now, Pre: genWrites(t, l, now, valGeneral, 0), Sync: rapid.IntRange(0, 3).Draw(t, "oddSync") > 0}
-				switch rapid.IntRange(0, 2).Draw(t, "oddKind") {
+				switch rapid.IntRange(0, 3).Draw(t, "oddKind") {
+				case 3:
+					od.Method2 = rapid.IntRange(1, 6).Draw(t, "method2")
+					od.XFF2 = l.XFF
+					if od.Method2 == l.Method || rapid.Bool().Draw(t, "xffToo") {
+						od.XFF2 = rapid.SampledFrom([]float32{0, 0.25, 0.5, 1}).Draw(t, "xff2")
+						if od.XFF2 == l.XFF {
+							od.XFF2 = 0.75
+						}
+					}
 				case 0:
 					od.Trailing = rapid.SampledFrom([]int{1, 11, 12, 100, 4096, 5000}).Draw(t, "trailing")
 				case 1:
